@@ -44,7 +44,7 @@ func typeKind(t ast.Expr) string {
 			return "ptr"
 		}
 		return "named:" + x.Name
-	case *ast.MapType, *ast.ArrayType:
+	case *ast.MapType, *ast.ArrayType, *ast.ChanType:
 		return "container"
 	case *ast.InterfaceType:
 		return "iface"
@@ -193,6 +193,7 @@ func writeFacts(repo, out string) error {
 		si := structs[strct]
 		how := map[string]string{}
 		fresh := map[string]bool{}
+		dflt := "unset"
 		ast.Inspect(fd.Body, func(n ast.Node) bool {
 			switch x := n.(type) {
 			case *ast.AssignStmt:
@@ -203,6 +204,14 @@ func writeFacts(repo, out string) error {
 					rhs := x.Rhs[i]
 					if id, ok := lhs.(*ast.Ident); ok && isFresh(rhs, fresh) {
 						fresh[id.Name] = true
+					}
+					// `out := *o`: a shallow copy of the whole struct – every field not set afterwards is shared
+					if id, ok := lhs.(*ast.Ident); ok && id.Name == outVar && outVar != "" {
+						if st, ok := rhs.(*ast.StarExpr); ok {
+							if _, ok := st.X.(*ast.Ident); ok {
+								dflt = "shared"
+							}
+						}
 					}
 					if sel, ok := lhs.(*ast.SelectorExpr); ok {
 						if id, ok := sel.X.(*ast.Ident); ok && id.Name == outVar && outVar != "" {
@@ -242,7 +251,7 @@ func writeFacts(repo, out string) error {
 		for _, f := range si.fields {
 			h := how[f.name]
 			if h == "" {
-				h = "unset"
+				h = dflt
 			}
 			facts = append(facts, fieldFact{fname, strct, f.name, f.typ, mutableField(f), h})
 		}
@@ -258,6 +267,7 @@ func writeFacts(repo, out string) error {
 	site("cloner.dclProperty", "dclProperty", "out")
 	site("cloner.value", "Value", "out")
 	site("runtime.clone", "runtime", "out")
+	site("Otto.Copy", "Otto", "out")
 
 	// payload cases of objectClone: switch value := in.value.(type)
 	if fd, ok := funcs["objectClone"]; ok {
